@@ -394,7 +394,7 @@ func vfSplit(s string, def []string) []string {
 
 type vfPktData struct {
 	id, fi, tsn int
-	first     bool
+	first       bool
 }
 
 // dataIn lists the DATA chunks of a pending packet with "first transmission" flags.
@@ -425,18 +425,18 @@ func (w *vfWorld) dataIn(p *vfPkt) []vfPktData {
 }
 
 type vfDirected struct {
-	Label  string
-	IL     bool
-	Unord  bool
-	RType  byte
-	RVal   uint32
-	NFrag  []int // fragments per message
-	Drop   map[[2]int]bool // (message index 1.., fragment) whose FIRST transmission is dropped
-	DropFwd int  // number of FORWARD-TSN packets to drop
-	RecvUnord bool // receiver application configures its stream object differently
-	Mixed  bool // odd messages are sent with the opposite ordering (ordered/unordered share the stream)
-	Burst  bool // all messages are written before the network moves (one FORWARD-TSN can cover several messages)
-	SeqWrap int // >0: SSN/MID counters preset this far below their wrap
+	Label     string
+	IL        bool
+	Unord     bool
+	RType     byte
+	RVal      uint32
+	NFrag     []int           // fragments per message
+	Drop      map[[2]int]bool // (message index 1.., fragment) whose FIRST transmission is dropped
+	DropFwd   int             // number of FORWARD-TSN packets to drop
+	RecvUnord bool            // receiver application configures its stream object differently
+	Mixed     bool            // odd messages are sent with the opposite ordering (ordered/unordered share the stream)
+	Burst     bool            // all messages are written before the network moves (one FORWARD-TSN can cover several messages)
+	SeqWrap   int             // >0: SSN/MID counters preset this far below their wrap
 }
 
 func vfRunDirected(t *testing.T, tr *vfTrace, x vfDirected) bool {
